@@ -91,6 +91,37 @@ def corpus():
     ]
 
 
+CONCURRENT_CALLS = 'C13/concurrent-register-unregister-misaligns-handles'
+
+
+def known_replays():
+    ap = {'op': 'applyTask', 'i': 0}
+    what1 = ('two application threads in register_tracepoint at the same time: add_custom appends to the parallel lists '
+             '_custom and _custom_ids in two statements without a lock; a call parked between them while the other runs '
+             'leaves the lists misaligned, and its handle then removes the OTHER registration')
+    what2 = ('two unregister calls at the same time: the one parked between its two `del`s removes the id at a stale '
+             'index, the wrong registration stays installed')
+    out = []
+    # the park position is counted in executed lines: a few neighbouring positions, the misaligning one is among them
+    for k in (4, 5, 6):
+        out.append((CONCURRENT_CALLS, what1,
+                    {'kind': 'preempt', 'k': k, 'prefix': [svcref._r('a'), ap], 'victim': svcref._r('b', 11),
+                     'intruder': svcref._r('c', 12), 'then': [{'op': 'unregister', 'handle': 2}]}))
+    for k in (3, 4, 5):
+        out.append((CONCURRENT_CALLS, what2,
+                    {'kind': 'preempt', 'k': k,
+                     'prefix': [svcref._r('a'), svcref._r('b', 11), svcref._r('c', 12), ap, ap, ap],
+                     'victim': {'op': 'unregister', 'handle': 1}, 'intruder': {'op': 'unregister', 'handle': 0}}))
+    return out
+
+
+def known_finding(case, obs):
+    if case.get('kind') == 'preempt' and case['victim']['op'] in ('register', 'unregister') \
+            and case['intruder']['op'] in ('register', 'unregister'):
+        return CONCURRENT_CALLS
+    return None
+
+
 def run_impl(case):
     if case['kind'] == 'hits':
         return svcbench.run_hits(case)
